@@ -324,6 +324,12 @@ class TableRun:
         kind = op[0]
         if kind == "add":
             self.op_add(op)
+        elif kind == "readd":
+            # the very Node object that was stored before and has left the table since (removed as BAD, or evicted) is
+            # offered again, its failure count reset - what the DHT overlay does with a node that answers after all
+            gone = [n for n in self.offered if n.id not in self.contents]
+            if gone:
+                self.op_add(["add", None, 0, 0, op[2], 0, op[3], op[4]], node=gone[op[1] % len(gone)])
         elif kind == "touch":
             node = self.ref(op[1])
             if node is not None:
@@ -339,13 +345,16 @@ class TableRun:
         else:
             raise AssertionError(op)
 
-    def op_add(self, op: list) -> None:
+    def op_add(self, op: list, node=None) -> None:
         _, idhex, keyidx, port, rtt, failed, resp_age, qry_age = op
-        n = mk_node(idhex, keyidx, port)
+        n = node if node is not None else mk_node(idhex, keyidx, port)
         n.rtt = rtt
         set_status(n, self.clock.now, failed, resp_age, qry_age)
-        self.offered.append(n)
-        self.specs.append((idhex, keyidx, port))
+        if node is None:
+            self.offered.append(n)
+            self.specs.append((idhex, keyidx, port))
+        else:
+            self.readds = getattr(self, "readds", 0) + 1
         nid = n.id
         before, pre_buckets = self.contents, self.buckets
         owner = self.owner_key(binstr(nid), pre_buckets)
@@ -497,8 +506,8 @@ def gen_case(seed: int, steps: int, mykind: int, cluster: int, mix: int) -> dict
     rng = random.Random(seed)
     my = [rng.getrandbits(160), 0, FULL - 1, int("a5" * 20, 16)][mykind]
     p_cluster = [0.2, 0.6, 0.9, 0.98][cluster]
-    #          add  touch tick rmbad closest genid
-    weights = [[55, 10, 4, 4, 22, 5], [80, 3, 1, 1, 12, 3], [40, 25, 6, 10, 15, 4]][mix]
+    #          add  touch tick rmbad closest genid readd
+    weights = [[55, 10, 4, 4, 22, 5, 4], [80, 3, 1, 1, 12, 3, 2], [40, 25, 6, 10, 15, 4, 8]][mix]
     ids: list[int] = []
     adds: list = []        # the add op that first introduced ids[i] (same length as ids)
     ops: list = []
@@ -540,7 +549,7 @@ def gen_case(seed: int, steps: int, mykind: int, cluster: int, mix: int) -> dict
         return rng.getrandbits(160)
 
     for _ in range(steps):
-        kind = rng.choices(range(6), weights)[0]
+        kind = rng.choices(range(7), weights)[0]
         if kind == 0:
             r = rng.random()
             port = rng.randint(1024, 65535)
@@ -584,8 +593,10 @@ def gen_case(seed: int, steps: int, mykind: int, cluster: int, mix: int) -> dict
                 t = clustered(rng.choice(ids), rng.randint(0, 159), rng.getrandbits(160))
             k = rng.choice([1, 2, 7, 8, 8, 9, 20, rng.randint(1, 20), rng.randint(1, 20)])
             ops.append(["closest", hexid(t), k, rng.randrange(1 << 16) if rng.random() < 0.35 else None])
-        else:
+        elif kind == 5:
             ops.append(["genid", rng.getrandbits(32)])
+        else:
+            ops.append(["readd", rng.randrange(1 << 16), rng.choice(RTTS), rng.choice(AGES), rng.choice(AGES)])
     return {"kind": "table", "my": hexid(my), "ops": ops}
 
 
